@@ -24,6 +24,8 @@ RULE = ("random programs of 1-30 scripted tests (both ways of reaching the detec
 ASSUMPTIONS = ["new/delete overloads are on (otherwise the plugin only prints a warning)",
                "the test does not call enable()/disable()/startChecking() on the detector itself, and does not misuse memory (C06)",
                "the underlying allocator does not fail and never returns a block that is still in use",
+               "cpputest_realloc is given malloc-family blocks or NULL only (anything else is a mismatch report, C06)",
+               "plugins other than the leak plugin add their failures to the TestResult (the plugin compares failure counts)",
                "reports stay below the 4096-byte buffer (C14); beyond it only subset + total are demanded",
                "tests run in the current process; failure counts stay below 2^32"]
 MAXID = 4096
@@ -434,17 +436,25 @@ def shrink(s):
             yield fmt(*c)
 
 
-LEVEL_TEXT = ("Machine-checked (Coq) theorems over an executable model of MemoryLeakWarningPlugin::preTestAction / postTestAction / FinalReport "
-              "on top of the C04 model of the detector's hash table and period stamps, inside the control flow of Utest::run and the plugin "
-              "pre/post actions: for every program (any number of tests, any allocation/release script over setup/body/teardown, releases "
-              "of earlier tests' blocks, address reuse, expected-leak counts, ignore flag, own failing checks) a test gets a leak failure "
-              "iff it passed its own checks, did not ask to ignore leaks, and the number of blocks it allocated and did not release differs "
-              "from the number it declared; the report lists exactly those blocks; no block is charged to a later test; flags do not carry "
-              "over; the final report lists exactly the blocks still outstanding. The quantities are defined on the program text, not on the "
-              "table. Tied to the code by a differential run of the extracted model against the real plugin and detector in a private "
-              "registry (local and global detector), with the extracted model-free spec judging the implementation.")
+LEVEL_TEXT = ("Machine-checked (Coq) theorems over an executable model of MemoryLeakWarningPlugin's constructor / preTestAction / postTestAction / "
+              "FinalReport on top of the C04 model of the detector's hash table and period stamps (store, release, realloc, totals, report "
+              "walk, demotion walk), inside the control flow of Utest::run and of the plugin chain's pre/post actions: for every program (any "
+              "number of tests; any allocation/release/realloc script over setup/body/teardown, over another plugin's actions inside and "
+              "outside the checking window, before the plugin exists and after the last test; releases of earlier tests' blocks, address "
+              "reuse, expected-leak counts, ignore flag, own failing checks anywhere) a test gets exactly one leak failure iff nothing else "
+              "failed in it, it did not ask to ignore leaks, and the number of blocks it obtained and did not release differs from the number "
+              "it declared last; the report lists exactly those blocks; no block is charged to a later test; releasing a foreign block offsets "
+              "nothing; declarations do not carry over (state invariant and a two-program theorem); the table before every pre-action is "
+              "exactly the text's outstanding set (none stamped checking); the final report is silent iff outstanding = k and lists exactly "
+              "the blocks obtained since the plugin exists. All right-hand sides are defined on the program text, not on the table; the "
+              "oracle `spec` is proved equivalent to those text-level demands. Tied to the code by a differential run of the extracted model "
+              "against the real plugin and detector in a private registry (local detector, and global detector through new/new[]/malloc/"
+              "realloc), with the extracted model-free spec judging the implementation.")
 LEVEL_NOTE = ("Trusted: Coq kernel, extraction, harness, generator. Modelled not verified: the C++ itself; FAIL's exception/longjmp by its "
-              "contract (leaves the phase). Reports longer than the 4096-byte buffer are C14's; enable()/disable() calls inside a test, "
-              "separate-process runs and memory misuse inside a test are outside the model.")
+              "contract (leaves the phase). Not covered: reports longer than the 4096-byte buffer (C14; the oracle then demands only "
+              "subset + total), enable()/disable() calls on the detector inside a test (blocks obtained after them are not stamped "
+              "`checking`), the branch taken when new/delete overloads are off (warning only), separate-process runs, memory misuse inside "
+              "a test (C06), allocation numbers beyond 2^32. After a run WITH failures the harness empties the detector's text buffer before "
+              "FinalReport (the runner never prints the final report then; the buffer would still hold the last leak report).")
 TECHNIQUE = "Coq proof over hand-written executable model + extracted-model/implementation correspondence check (differential)"
-READY = False
+READY = True
